@@ -115,6 +115,16 @@ fn check_query(t: &mut Tally, r: &mut Rng, q: &str, class: &str) {
             } else {
                 t.count("agree_malformed");
                 t.nontrivial(crate::prng::fnv64(q.as_bytes()));
+                // wherever the malformed component stands, the refusal is the same
+                let mut comps: Vec<&str> = q.split('&').collect();
+                if comps.len() > 1 {
+                    r.shuffle(&mut comps);
+                    let q2 = comps.join("&");
+                    match lib_canon_query(&q2) {
+                        Ok(Err((k2, st2, _))) if k2 == Kind::MalformedQueryString && st2 == 400 => t.count("malformed_permutation_invariant"),
+                        other => viol(t, "malformed-permutation", format!("{:?} is refused as malformed but its permutation {:?} gives {:?}", q, q2, other.map(|x| x.map_err(|e| (e.0.name(), e.1)))), q),
+                    }
+                }
             }
         }
         (Ok(g), Err(())) => viol(t, "accepts-malformed", format!("query {:?} has a malformed escape but canonicalises to {:?}", q, g), q),
@@ -154,7 +164,44 @@ fn gen_query_string(r: &mut Rng) -> String {
         4 => s.push_str("&bad=%zz"),
         5 => s.push_str("&%"),
         6 => s.push_str("&k=%4"),
+        7 => {
+            // a malformed escape at any position — first, middle or last component, in a name or a value, also in the
+            // component that carries the (excluded) signature parameter
+            let bad = *r.pick(&["%", "%4", "%zz", "%+5", "%4€", "%G0", "%-1"]);
+            let comp = match r.below(5) {
+                0 => format!("{}=v", bad),
+                1 => format!("n={}", bad),
+                2 => format!("X-Amz-Signature={}", bad),
+                3 => format!("X-Amz-Signatur{}=x", bad),
+                _ => format!("a{}b=c{}d", bad, bad),
+            };
+            let mut comps: Vec<String> = if s.is_empty() {
+                Vec::new()
+            } else {
+                s.split('&').map(|c| c.to_string()).collect()
+            };
+            let pos = r.usize_below(comps.len() + 1);
+            comps.insert(pos, comp);
+            s = comps.join("&");
+        }
         _ => {}
+    }
+    // long names sharing a long prefix and differing in the last byte; long values; many parameters
+    if r.chance(1, 16) {
+        let stem: String = "Filter.1.Value.member-with-a-long-common-prefix.".repeat(1 + r.usize_below(3));
+        let tails = ["-", ".", "0", "1", "10", "2", "%21", "A", "a", "~", "", "%7E"];
+        let k = 3 + r.usize_below(9);
+        let mut extra: Vec<String> = (0..k).map(|_| format!("{}{}={}", stem, r.pick(&tails), "v".repeat(*r.pick(&[0usize, 1, 63, 64, 65, 255, 256, 1024])))).collect();
+        if r.chance(1, 4) {
+            for j in 0..200 + r.usize_below(1800) {
+                extra.push(format!("p{}={}", j % 97, j));
+            }
+        }
+        if !s.is_empty() {
+            extra.insert(0, s);
+        }
+        r.shuffle(&mut extra);
+        s = extra.join("&");
     }
     s
 }
